@@ -292,6 +292,14 @@ where
         Sqx: Data<Elem = Sd::Elem>,
         Sqy: Data<Elem = Sd::Elem>,
     {
+        // the leading axis is checked by `Zip`, the remaining axes only once a query
+        // element is interpolated - which never happens for an empty query
+        assert!(
+            buffer.shape().get(1..) == self.data.shape().get(2..),
+            "buffer has the wrong shape, expected trailing axes: {:?}, got: {:?}",
+            self.data.shape().get(2..).unwrap_or(&[]),
+            buffer.shape().get(1..).unwrap_or(&[])
+        );
         Zip::from(xs)
             .and(ys)
             .and(buffer.axis_iter_mut(Axis(0)))
